@@ -59,7 +59,8 @@ def func_part(rep):
             rep.add(f'C13.beartype_func.post.wraps_original_and_marked.path{i}', 'proved' if (wrapped_ok and src_ok and marked) else 'refuted', backend='structural',
                     where='make_func(func_wrapped=<the wrapper recorded for the original callable>) - so __wrapped__/name/doc/signature follow functools.update_wrapper - and the result is marked as beartyped (idempotence)')
 
-def type_part(rep):
+def type_part(rep, prefix='C13', only=None):
+    """`only`: restrict the reported obligations to those whose kind contains this text (C05 reuses the member-loop obligation on failure isolation)"""
     from pyvc import funcmode, model as M, discharge, symx
     from pyvc.symx import Exec, St, VObj, VPy, VBool, VTup
     import beartype._decor._type.decortype as mod
@@ -79,7 +80,9 @@ def type_part(rep):
     BO = z3.Function('beartyped_of', M.Obj, M.Obj)
     def m_bo(ex, s, f, a, kw, w):
         # obligations at the call site (the member loop is summarised: per-iteration events exist only here)
-        kw = dict(kw); o = ex.obj(kw['obj']); DICT = z3.Select(F('__dict__'), CLS); kk = z3.Const('kk', M.Obj)
+        kw = dict(kw)
+        if 'obj' not in kw and a: kw['obj'] = a[0]
+        o = ex.obj(kw['obj']); DICT = z3.Select(F('__dict__'), CLS); kk = z3.Const('kk', M.Obj)
         ex.obl(s, 'loop.post.own_beartypeable_member', z3.And(z3.Or(*[M.inst(o, uni.const(c)) for c in mod.TYPES_BEARTYPEABLE]), z3.Exists([kk], z3.And(M.mem(DICT, kk), o == M.mget(DICT, kk)))),
                'only values of cls.__dict__ (members the class itself defines - not inherited ones) of a beartypeable kind are decorated')
         ex.obl(s.assume(M.inst(o, uni.const(type))), 'loop.post.nested_only', nested(o, CLS), 'a class-valued attribute is decorated only if that class is nested in (defined in the body of) the decorated class')
@@ -89,6 +92,13 @@ def type_part(rep):
         okconf = isinstance(kw.get('conf'), VObj) and kw['conf'].t.eq(CONF)
         ex.obl(s, 'loop.post.same_conf', z3.BoolVal(okconf), 'members are decorated under the configuration of the class decoration')
         return [(s.ev('beartype_object', o, kw), VObj(BO(o)))]
+    def m_direct(ex, s, f, a, kw, w):
+        # a member decorated by calling the lower-level decorators DIRECTLY: their failures propagate.  Under a non-fatal configuration
+        # (conf.warning_cls_on_decorator_exception is not None: always the case under the import hooks) one undecoratable member must
+        # not keep its siblings from being decorated, so such a call is only acceptable under a fatal configuration.
+        ex.obl(s, 'loop.post.member_failure_isolated', z3.Select(F('warning_cls_on_decorator_exception'), CONF) == uni.const(None),
+               'a member is decorated through the failure-isolating entry point (beartype_object: proved below) unless the configuration is fatal; otherwise the first undecoratable member leaves all later siblings unchecked')
+        return m_bo(ex, s, f, a, kw, w)
     def m_set(ex, s, f, a, kw, w):
         newv = ex.obj(a[2]); kk = z3.Const('kk2', M.Obj); DICT = z3.Select(F('__dict__'), CLS)
         ex.obl(s, 'loop.post.rebinds_only_changed', z3.And(ex.obj(a[0]) == CLS, z3.Exists([kk], z3.And(M.mem(DICT, kk), newv == BO(M.mget(DICT, kk)), newv != M.mget(DICT, kk), ex.obj(a[1]) == kk))),
@@ -98,6 +108,9 @@ def type_part(rep):
     from beartype._decor import decorcore
     cm = {mod.get_type_attr_cached_or_sentinel: m_cached, mod._uncache_beartype_if_type_redefined: ev('uncache'), decorcore.beartype_object: m_bo, mod.set_type_attr: m_set,
           mod.set_type_attr_cached: ev('set_cached'), mod.is_type_pep557_dataclass: lambda ex, s, f, a, kw, w: [(s, VBool(z3.Bool('is_dataclass')))], mod.beartype_pep557_dataclass: ev('dataclass'), '.startswith': m_sw}
+    cm[mod.beartype_type] = m_direct
+    import beartype._decor._nontype.decornontype as _nt
+    cm[_nt.beartype_nontype] = m_direct
     scope = dict(mod.__dict__); scope['beartype_object'] = VPy(decorcore.beartype_object)
     ex = Exec(uni, scope, call_model=cm, name='beartype_type'); ex.fields_mode = True; ex.method_names = {'startswith', 'items'}
     pre = (M.inst(CLS, uni.const(type)), M.inst(CONF, uni.const(BeartypeConf)), M.inst(z3.Select(F('__dict__'), CLS), uni.const(cabc.Mapping)))
@@ -113,8 +126,14 @@ def type_part(rep):
     pr = discharge.Prover(axioms)
     for ob in ex.obls:
         r = pr.prove(list(ob.pc), ob.goal)
+        if only and only not in ob.kind: continue
         extra = replay_prefix() if (r.status == 'refuted' and 'nested_only' in ob.kind) else {}
-        rep.add(f'C13.beartype_type.{ob.kind}#{ob.name.rsplit(".", 1)[-1]}', r.status, time=r.time, backend=r.backend, where=ob.where, **extra)
+        rep.add(f'{prefix}.beartype_type.{ob.kind}#{ob.name.rsplit(".", 1)[-1]}', r.status, time=r.time, backend=r.backend, where=ob.where, **extra)
+    if only:
+        nsites = sum(1 for kind, s_, v_ in all_outs for e in s_.events if e[0] == 'beartype_object')
+        rep.add(f'{prefix}.beartype_type.member_call_sites', 'proved' if (nsites or any('loop.post' in ob.kind for ob in ex.obls)) else 'refuted', backend='structural',
+                where='the member loop decorates members through call sites the contract saw (zero would make the isolation clause vacuous)')
+        all_outs = []
     for i, (kind, s, v) in enumerate(all_outs):
         pc = list(s.pc)
         if kind == 'return':
@@ -166,8 +185,12 @@ def bounded(rep, tier):
     names = list(MEMBERS)
     for r in (1, 2, 3): combos += list(itertools.combinations(names, r))
     if tier == 'quick': combos = combos[::3]
-    for combo in combos:
+    import warnings as _w
+    DECOS = [('default', beartype), ('nonfatal', beartype(conf=BeartypeConf(warning_cls_on_decorator_exception=UserWarning)))]
+    _w.simplefilter('ignore', UserWarning)
+    for combo, (dname, deco) in itertools.product(combos, DECOS):
         body = '\n    '.join(MEMBERS[k] for k in combo)
+        if dname != 'default': combo = combo + ('conf=' + dname,)
         for nested_mode in (False, True):
             src = 'from typing import Self, no_type_check\n' + (f'class Outer:\n    class C:\n        _p = 1\n        ' + body.replace('\n', '\n    ') + '\n' if nested_mode else f'class C:\n    _p = 1\n    {body}\n')
             def build():
@@ -176,17 +199,17 @@ def bounded(rep, tier):
                 exec(src, m.__dict__); return m.__dict__['Outer'] if nested_mode else m.__dict__['C']
             try:
                 A = build(); B = build()
-                A2 = beartype(A)
+                A2 = deco(A)
                 if A2 is not A: fails.append((combo, nested_mode, 'decorating the class returned another object'))
-                if beartype(A) is not A: fails.append((combo, nested_mode, 'second decoration did not return the same class'))
+                if deco(A) is not A: fails.append((combo, nested_mode, 'second decoration did not return the same class'))
                 # member-wise decoration of B (descriptors via beartype itself, innermost class first for nesting)
                 CB = B.C if nested_mode else B; CA = A.C if nested_mode else A
                 for nm, val in list(vars(CB).items()):
                     if isinstance(val, (type(lambda: 0), classmethod, staticmethod, property)):
                         # equivalent per-member decoration needs the class for Self / class-scope names: beartype's documented way is decorating the class; here members are decorated through the public decorator on the owning class chain
                         pass
-                beartype(CB)
-                if nested_mode: beartype(B)
+                deco(CB)
+                if nested_mode: deco(B)
                 for nm in vars(CA):
                     va, vb = vars(CA)[nm], vars(CB)[nm]
                     if type(va) is not type(vb): fails.append((combo, nested_mode, f'{nm}: descriptor kind {type(va).__name__} vs {type(vb).__name__}'))
@@ -230,15 +253,54 @@ def bounded(rep, tier):
                 replay=dict(reproduced=True, detail=f'members {c} nested={n}: {msg}'[:300]), replay_script=f'print({(c, n, msg)!r}); sys.exit(1)\n')
     rep.bounded.append(dict(kind='class decoration vs decoration of the inner class / members over a small class grammar (bounded stand-in, NOT counted as proved)', classes=len(combos) * 2, probes=cases, failing=len(fails)))
 
+def decorcore_part(rep):
+    """the dispatchers between @beartype and the class / callable decorators forward EXACTLY what they were given: the object, the
+    configuration and every keyword (the class stack of a member) - whichever failure handling the configuration selects.  Function mode on
+    decorcore.beartype_object, _beartype_object_fatal and _beartype_object_nonfatal."""
+    from pyvc import funcmode, model as M, discharge
+    from pyvc.symx import Exec, St, VObj, VPy, VBool
+    import beartype._decor.decorcore as mod
+    uni = M.Universe()
+    for c in (Exception, Warning, type): uni.const(c)
+    OBJ = z3.Const('obj', M.Obj); CONF = z3.Const('conf', M.Obj); STACK = z3.Const('cls_stack', M.Obj); EXTRA = z3.Const('extra_kw', M.Obj)
+    def forwards(a, kw, with_conf=True):
+        kw = dict(kw) if not isinstance(kw, dict) else kw
+        okobj = (len(a) >= 1 and isinstance(a[0], VObj) and a[0].t.eq(OBJ)) or (isinstance(kw.get('obj'), VObj) and kw['obj'].t.eq(OBJ))
+        okconf = isinstance(kw.get('conf'), VObj) and kw['conf'].t.eq(CONF)
+        okkw = all(isinstance(kw.get(k), VObj) and kw[k].t.eq(t_) for k, t_ in (('cls_stack', STACK), ('other_kw', EXTRA)))
+        return okobj and okconf and okkw and set(kw) <= {'obj', 'conf', 'cls_stack', 'other_kw'}
+    def callee(tag):
+        def m(ex, s, f, a, kw, w): return [(s.ev('callee', tag, forwards(a, kw)), VObj(M.fresh(tag)))]
+        return m
+    def m_any(ex, s, f, a, kw, w): return [(s, VObj(M.fresh('text')))]
+    import beartype._decor._type.decortype as _dt, beartype._decor._nontype.decornontype as _nt
+    targets = {'beartype_object': {mod._beartype_object_fatal: callee('fatal'), mod._beartype_object_nonfatal: callee('nonfatal')},
+               '_beartype_object_fatal': {_dt.beartype_type: callee('type'), _nt.beartype_nontype: callee('nontype')},
+               '_beartype_object_nonfatal': {mod._beartype_object_fatal: callee('fatal'), mod.issue_warning: m_any, mod.format_exc: m_any, mod.uppercase_str_char_first: m_any, mod.prefix_object: m_any,
+                                             mod.is_type_subclass: (lambda ex, s, f, a, kw, w: [(s, VBool(z3.BoolVal(True)))]), '.replace': m_any}}
+    for qual, cm in targets.items():
+        fobj, node, _ = funcmode.load('beartype/_decor/decorcore.py', qual)
+        ex = Exec(uni, dict(mod.__dict__), call_model=cm, name=qual); ex.fields_mode = True; ex.method_names = {'replace'}
+        kwargs = {'conf': VObj(CONF), 'cls_stack': VObj(STACK), 'other_kw': VObj(EXTRA)}
+        outs = ex.run_function(node, St(), (VObj(OBJ),), kwargs, fobj)
+        n = 0
+        for i, (s, v) in enumerate(outs):
+            for e in s.events:
+                if e[0] != 'callee': continue
+                n += 1
+                rep.add(f'C13.decorcore.{qual}.post.forwards_object_conf_keywords.path{i}.{e[1]}', 'proved' if e[2] else 'refuted', backend='structural',
+                        where=f'{qual} calls the {e[1]} decorator with the very object, configuration and every keyword it was given (a member keeps its class stack under every configuration)')
+        if not n: rep.error(f'C13.decorcore.{qual}: no callee call seen (vacuous)')
+
 def main(tier, seed):
     rep = report.Report('C13', tier, seed, 'other', f'./check C13 --tier {tier}')
-    for fn in (func_part, type_part):
+    for fn in (func_part, type_part, decorcore_part):
         try: fn(rep)
         except Exception: rep.error(f'C13 {fn.__name__}: ' + traceback.format_exc()[-2500:])
     try: bounded(rep, tier)
     except Exception: rep.error('C13 bounded: ' + traceback.format_exc()[-2500:])
     files = ['beartype/_decor/_nontype/decornontype.py', 'beartype/_decor/_type/decortype.py', 'beartype/_decor/decorcore.py']
-    rep.functions = ['decornontype.beartype_func (mode F)', 'decortype.beartype_type (mode F, member loop by summarisation)'] + [f'{p}@{report.src_hash(p)}' for p in files]
+    rep.functions = ['decornontype.beartype_func (mode F)', 'decortype.beartype_type (mode F, member loop by summarisation)', 'decorcore.beartype_object / _beartype_object_fatal / _beartype_object_nonfatal (mode F: forwarding)'] + [f'{p}@{report.src_hash(p)}' for p in files]
     from pyvc import model as M
     rep.trusted = ['pyvc', 'z3', 'functools.update_wrapper / make_func set __wrapped__, __name__, __doc__ and the signature from func_wrapped'] + M.ASSUMED_SEMANTICS
     rep.assumptions = ['callee contracts assumed: is_func_unbeartypeable (true for unannotated, @no_type_check, beartype wrappers, python -O), generate_code, make_func, beartype_object on a member behaves as @beartype on that member given the class stack (forward-scope resolution: C07 territory)',
